@@ -15,13 +15,16 @@ def simple(run, shards_thorough=16, variant="default", shards_quick=1, fuzz=None
         if tier == "thorough" and fuzz:
             st["barrier"] = True
             out.append(dict(run="^$", variant=variant, fuzz=fuzz, fuzztime=240, journal=kw.get("journal", False)))
+        if tier == "thorough" and kw.get("also386"):
+            # the same tests built for GOARCH=386 (32-bit int and uint, portable code paths), at the quick tier's case counts
+            out.insert(1, dict(run=run, variant="386", shards=4, env={"VERIF_TIER": "quick"}))
         return out
     return steps
 
 
 PROPS = {
-    "C01": dict(level="exploration", steps=simple("^TestC01", shards_quick=2, fuzz="FuzzC10"), assumptions=TRUST),
-    "C13": dict(level="exploration", steps=simple("^TestC13", shards_thorough=4), assumptions=TRUST),
+    "C01": dict(level="exploration", steps=simple("^TestC01", shards_quick=2, fuzz="FuzzC10", also386=True), assumptions=TRUST),
+    "C13": dict(level="exploration", steps=simple("^TestC13", shards_thorough=4, also386=True), assumptions=TRUST),
 }
 PROPS["C02"] = dict(level="exploration", steps=simple("^TestC02"), assumptions=TRUST)
 PROPS["C09"] = dict(level="exploration", steps=simple("^(TestC09|TestRefGolden)", shards_quick=2), assumptions=TRUST)
@@ -33,6 +36,9 @@ PROPS["C05"] = dict(level="exploration", steps=simple("^TestC05", fuzz="FuzzC05"
 def twin(run, shards_thorough=16, fuzz=None):
     def steps(tier):
         st = [dict(run=run, variant="default", shards=(shards_thorough if tier == "thorough" else 1), needs=["noasm"], barrier=True)]
+        if tier == "thorough":
+            # the decoder built for GOARCH=386 (32-bit length arithmetic) against the same oracles, quick-tier case counts
+            st.append(dict(run=run, variant="386", shards=4, needs=["noasm"], barrier=True, env={"VERIF_TIER": "quick"}))
         if tier == "thorough" and fuzz:
             st.append(dict(run="^$", variant="default", needs=["noasm"], fuzz=fuzz, fuzztime=FUZZTIME))
         return st
@@ -45,8 +51,8 @@ FUZZTIME = 240
 PROPS["C03"] = dict(level="exploration", steps=twin("^TestC03", fuzz="FuzzC03"), needs_twin=True, assumptions=TRUST)
 PROPS["C04"] = dict(level="exploration", steps=twin("^TestC04", fuzz="FuzzC03"), needs_twin=True, uses_lz4ref=True, assumptions=TRUST)
 PROPS["C12"] = dict(level="exploration", steps=twin("^TestC12", fuzz="FuzzC03"), needs_twin=True, assumptions=TRUST)
-PROPS["C10"] = dict(level="exploration", steps=simple("^TestC10", shards_quick=2, fuzz="FuzzC10"), uses_lz4ref=True, assumptions=TRUST)
-PROPS["C11"] = dict(level="exploration", steps=simple("^TestC11", fuzz="FuzzC10"), assumptions=TRUST)
+PROPS["C10"] = dict(level="exploration", steps=simple("^TestC10", shards_quick=2, fuzz="FuzzC10", also386=True), uses_lz4ref=True, assumptions=TRUST)
+PROPS["C11"] = dict(level="exploration", steps=simple("^TestC11", fuzz="FuzzC10", also386=True), assumptions=TRUST)
 PROPS["C17"] = dict(level="exploration", steps=simple("^TestC17", variant="bubble", shards_quick=4), default_variant="bubble", assumptions=TRUST + ["testing/synctest (Go 1.26.8): 'all goroutines durably blocked' detection is sound for channel operations; goroutines blocked on a mutex or in a syscall are not covered"])
 
 
@@ -64,7 +70,7 @@ def c08_steps(tier):
 PROPS["C08"] = dict(level="exploration", steps=c08_steps, default_variant="bubble", assumptions=TRUST + [
     "testing/synctest (Go 1.26.8) detects 'all goroutines durably blocked' for channel operations; schedules are sampled (hook-site delays order the goroutines, the Go scheduler chooses in between)",
     "the Go race detector reports a race only when both accesses occur in the explored execution"])
-PROPS["C16"] = dict(level="exploration", steps=simple("^TestC16"), assumptions=TRUST)
+PROPS["C16"] = dict(level="exploration", steps=simple("^TestC16", also386=True), assumptions=TRUST)
 
 
 def c14_steps(tier):
